@@ -289,8 +289,9 @@ def tokOutStr (t : TokOut) : String :=
   s!"{t.id},{t.ts},{t.te},{pos}|" ++ "+".intercalate (t.ffs.map ffStr)
 
 def runScan (ge73 : Bool) (src : Bytes) : String :=
-  let s0 := initLex src.toArray ge73 113
-  let (s, toks) := lexAllModel scanProg (src.length + 16) s0 []
+  let d := src.toArray
+  let s0 := initLex d ge73 113
+  let (s, toks) := lexAllModel d scanProg (src.length + 16) s0 []
   let errs := "+".intercalate (s.errs.map (fun e => s!"{e.1}:{e.2.1}:{e.2.2.1}:{e.2.2.2.1}:{e.2.2.2.2}"))
   let fault := match s.fault with
     | some m => "fault:" ++ m.replace " " "_"
